@@ -65,6 +65,7 @@ SIG_COMBRANGE = 'C14/combined/source-outside-res-range-requested'
 SIG_COMBKEY = 'C14/combined/transparent_color-keyed-after-server-side-merge'
 SIG_BBOXCLIP = 'C14/clip/bbox-coverage/internal-error'
 SIG_GROUPRANGE = 'C14/group/child-layer-res-range-ignored'
+SIG_TRNSKEY = 'C14/colour-key/trns-transparency-lost-in-make_transparent'
 
 
 # ------------------------------------------------------------------------------------------------
@@ -326,9 +327,6 @@ def sources(draw, ncov):
     if draw(st.integers(0, 3)) == 0:
         s['range'] = draw(st.sampled_from(RANGES))
     s['field'] = draw(fields(tc))
-    if s['field']['deliver'] == 'rgbkey' and tc is not None:
-        # colour-key PNG (tRNS) together with a configured transparent_color is not generated (see report: limits)
-        s['field']['deliver'] = 'rgba'
     return s
 
 
@@ -787,6 +785,12 @@ def check_request(case, rq, app, up, st_, open_sigs, ri):
     bboxclip_construct = any(e.visible and e.maybe and e.s['cov'] is not None and e.s['cov'][1]
                              and case['covs'][e.s['cov'][0]]['kind'] == 'bbox' for e in entries)
     grouprange_construct = any(e.via_group and not e.layer_in_range for e in entries)
+
+    def trns_and_key(e):
+        f = e.s['field']
+        return (e.visible and e.s['transparent'] and e.s['tc'] is not None and f['deliver'] == 'rgbkey'
+                and f['alpha'][0] != 'opaque')
+    trnskey_construct = any(trns_and_key(e) for e in entries)
     # precondition (see ASSUMPTIONS): a source declared `transparent: false` that is the upper member of a combinable
     # pair has no empty areas - otherwise "the individual layer image" (flattened on white by the server) and the
     # server-side composite legitimately differ
@@ -796,7 +800,7 @@ def check_request(case, rq, app, up, st_, open_sigs, ri):
     for construct, s_ in ((has_blend_construct, SIG_BLEND), (opzero_construct, SIG_OPZERO),
                           (combrange_construct, SIG_COMBRANGE),
                           (combkey_construct, SIG_COMBKEY), (bboxclip_construct, SIG_BBOXCLIP),
-                          (grouprange_construct, SIG_GROUPRANGE)):
+                          (grouprange_construct, SIG_GROUPRANGE), (trnskey_construct, SIG_TRNSKEY)):
         if construct and s_ in open_sigs:
             st_.excluded['open-finding:' + s_] += 1
             return None
@@ -951,6 +955,15 @@ def check_request(case, rq, app, up, st_, open_sigs, ri):
                 return core.Violation(SIG_COMBKEY, 'sources with transparent_color were merged into one upstream request LAYERS=%s; the '
                                       'colour key is applied to the server-side composite, so the key-coloured (background) pixels of the upper '
                                       'layer hide the lower layer instead of showing it: %s' % (','.join(c), where), vcase)
+    if trnskey_construct:
+        cand = np.zeros(shape, bool)
+        for e in entries:
+            if trns_and_key(e):
+                cand |= (field_rgba(e.s['field'], X, Y)[..., 3] == 0) | e.dontcare
+        if not (bad & ~cand).any():
+            return core.Violation(SIG_TRNSKEY, 'a source with transparent_color whose server answers with an RGB PNG carrying a tRNS '
+                                  'colour key: make_transparent replaces the alpha channel and the tRNS-transparent pixels come out '
+                                  'opaque in the key colour: %s' % where, vcase)
     if not rq['transparent']:
         cand = np.zeros(shape, bool)
         for e in vis:
